@@ -120,11 +120,11 @@ structure SearchSplit (π : Type) where
   deriving Repr
 
 /-- The HACK of `form_sigopt_parzen_estimator_for_search`:
-    `if observation_count - sum(violations) > dim:` lower = satisfiers, greater = violators,
+    `if observation_count - sum(violations) > dim and any(violations):` lower = satisfiers, greater = violators,
     `gamma = sum(violations) / len(violations)`; otherwise the sorting split and gamma are kept. -/
 def searchSplit {π : Type} (pts : List π) (viol : List Bool) (dim : Nat)
     (dLower dGreater : List π) (dGamma : Rat) : SearchSplit π :=
-  if (pts.length : Int) - (countTrue viol : Int) > (dim : Int) then
+  if (pts.length : Int) - (countTrue viol : Int) > (dim : Int) ∧ 0 < countTrue viol then
     { lower := selectRows pts viol false, greater := selectRows pts viol true,
       gamma := (countTrue viol : Rat) / (viol.length : Rat), forced := true }
   else
